@@ -97,6 +97,11 @@ def _prefix_actions(f, loop):
         ap = ts.assign_parts(f, f.strip(s)) if f.k(f.strip(s)) == "BinaryOperator" else None
         if ap and ap[1] is not None and f.nodes[f.strip(ap[1])].get("cv") == 0 and f.k(f.strip(ap[0])) == "DeclRefExpr":
             out.append("reset:" + ("status" if "int" in f.nodes[f.strip(ap[0])].get("t", "int") else "?"))
+        if f.k(s) == "DeclStmt":
+            # a status variable declared (and zeroed) inside the iteration is a fresh status for every card
+            for d in f.nodes[s].get("decls", []):
+                if d.get("dk") == "Var" and d.get("init", -1) >= 0 and f.nodes[f.strip(d["init"])].get("cv") == 0 and "int" in (d.get("ctype") or d.get("type", "")):
+                    out.append("reset:status")
         for i, cal in f.calls(s):
             if cal:
                 out.append(f.call_macro(i) or cal["name"])
